@@ -139,14 +139,15 @@ type c09Counters struct {
 	negative bool
 	resetErr int // -1 none, 0 plain Reset, else the error code
 	panics   []string
+	getter   int           // c09G*: which AccessorGetter the server's store delegates to for this request
 	fault    int           // c09F*: what the harness makes fail behind the server for this request
 	started  chan struct{} // closed when the server's handler for this request has been entered
 	done     chan struct{} // closed when the server's handler for this request has returned
 	once     sync.Once
 }
 
-func c09NewCounters(fault int) *c09Counters {
-	return &c09Counters{resetErr: -1, fault: fault, started: make(chan struct{}), done: make(chan struct{})}
+func c09NewCounters(getter, fault int) *c09Counters {
+	return &c09Counters{resetErr: -1, getter: getter, fault: fault, started: make(chan struct{}), done: make(chan struct{})}
 }
 
 // faults injected behind the real server (Coq: Server.fault)
@@ -163,11 +164,41 @@ var c09FaultCoq = []string{"FNone", "FStore", "FSize", "FBuildErr", "FBuildPanic
 const c09InjectedPanic = "c09: injected accessor panic"
 
 var errC09Injected = errors.New("c09: injected failure")
+
+// the AccessorGetter behind the real Server (Coq: Server.getter): the store itself, the store behind store.CachedStore
+// (Store.WithCache; its cache wraps the loader's error with "unable to load accessor: %w"), the store behind a decorator that
+// adds context to every error with %w.  A node may put any of them in front of its store; "not found" must survive all.
+const (
+	c09GPlain = iota
+	c09GCached
+	c09GWrapping
+)
+
+var c09GetterCoq = []string{"GPlain", "GCached", "GWrapping"}
+
+type c09WrappingGetter struct{ inner store.AccessorGetter }
+
+func (g c09WrappingGetter) GetByHeight(ctx context.Context, h uint64) (eds.AccessorStreamer, error) {
+	acc, err := g.inner.GetByHeight(ctx, h)
+	if err != nil {
+		return nil, fmt.Errorf("c09 getter: height %d: %w", h, err)
+	}
+	return acc, nil
+}
+
+func (g c09WrappingGetter) HasByHeight(ctx context.Context, h uint64) (bool, error) {
+	ok, err := g.inner.HasByHeight(ctx, h)
+	if err != nil {
+		return false, fmt.Errorf("c09 getter: height %d: %w", h, err)
+	}
+	return ok, nil
+}
 func (c *c09Counters) finish() { c.once.Do(func() { close(c.done) }) }
 
 type c09Store struct {
-	inner store.AccessorGetter
-	mu    sync.Mutex
+	inner  store.AccessorGetter   // what the server is given by default: the *store.Store
+	others []store.AccessorGetter // indexed by c09G*
+	mu     sync.Mutex
 	c     *c09Counters
 }
 
@@ -240,11 +271,11 @@ func (a *c09Acc) Close() error {
 }
 
 func (s *c09Store) GetByHeight(ctx context.Context, h uint64) (eds.AccessorStreamer, error) {
-	acc, err := s.inner.GetByHeight(ctx, h)
-	if err != nil {
-		return nil, err
-	}
 	c := s.get()
+	acc, err := s.others[c.getter].GetByHeight(ctx, h)
+	if err != nil {
+		return nil, err // handed to the server exactly as the getter returned it
+	}
 	if c.fault == c09FStore { // the block is there, the store fails otherwise
 		_ = acc.Close()
 		return nil, errC09Injected
@@ -317,6 +348,7 @@ type c09H struct {
 	cur     *c09Counters
 	limit   int64
 	mu      sync.Mutex
+	getter  int  // c09G*: the getter behind the server for the requests that follow
 	dead    bool // a handler hung: the fixture is no longer usable, the run stops generating
 }
 
@@ -372,7 +404,11 @@ func newC09(t *testing.T, r *zv.Run) *c09H {
 	h.cl, h.sv = mn.Hosts()[0], mn.Hosts()[1]
 	sp := DefaultServerParameters()
 	sp.WithNetworkID("verif")
-	cs := &c09Store{inner: st}
+	cached, err := st.WithCache("c09", 4)
+	if err != nil {
+		t.Fatal(err)
+	}
+	cs := &c09Store{inner: st, others: []store.AccessorGetter{st, cached, c09WrappingGetter{inner: st}}}
 	h.srv, err = NewServer(sp, h.sv, cs)
 	if err != nil {
 		t.Fatal(err)
@@ -430,7 +466,7 @@ type c09Out struct {
 
 // raw sends request bytes on a fresh stream of protocol p and classifies the answer.
 func (h *c09H) raw(p string, req []byte, limit int64, closeWrite bool, fault int) c09Out {
-	c := c09NewCounters(fault)
+	c := c09NewCounters(h.getter, fault)
 	h.mu.Lock()
 	h.cur, h.limit = c, limit
 	h.mu.Unlock()
@@ -641,7 +677,7 @@ func (h *c09H) clientGet(p string, id request, sq *c09Square) error {
 	if h.dead {
 		return nil
 	}
-	c := c09NewCounters(c09FNone)
+	c := c09NewCounters(h.getter, c09FNone)
 	h.mu.Lock()
 	h.cur, h.limit = c, 1<<40
 	h.mu.Unlock()
@@ -697,13 +733,13 @@ func (h *c09H) clientCheck(p string, req []byte) {
 		return
 	}
 	if err := h.clientGet(p, id, sq); err != nil {
-		h.r.Violation("client-rejects:"+p, err.Error(), map[string]any{"proto": p, "client": "get", "req_hex": fmt.Sprintf("%x", req), "heights": h.heightsJSON()})
+		h.r.Violation("client-rejects:"+p, err.Error(), map[string]any{"proto": p, "client": "get", "getter": c09GetterCoq[h.getter], "req_hex": fmt.Sprintf("%x", req), "heights": h.heightsJSON()})
 	}
 }
 
 func (h *c09H) clientNotFoundCheck(p string, req []byte) {
 	if err := h.clientNotFound(p, req); err != nil {
-		h.r.Violation("client-notfound:"+p, err.Error(), map[string]any{"proto": p, "client": "notfound", "req_hex": fmt.Sprintf("%x", req), "heights": h.heightsJSON()})
+		h.r.Violation("client-notfound:"+p, err.Error(), map[string]any{"proto": p, "client": "notfound", "getter": c09GetterCoq[h.getter], "req_hex": fmt.Sprintf("%x", req), "heights": h.heightsJSON()})
 	}
 }
 
@@ -716,7 +752,7 @@ func (h *c09H) clientNotFound(p string, req []byte) error {
 	if _, err := id.ReadFrom(bytes.NewReader(req)); err != nil || h.squareAt(id.Height()) != nil {
 		return nil
 	}
-	c := c09NewCounters(c09FNone)
+	c := c09NewCounters(h.getter, c09FNone)
 	h.mu.Lock()
 	h.cur, h.limit = c, 1<<40
 	h.mu.Unlock()
@@ -742,7 +778,7 @@ func (h *c09H) clientNotFound(p string, req []byte) error {
 		h.dead = true
 		return errors.New("the server's handler did not finish within 30s of the client's return")
 	}
-	h.r.Count("client", p+":unknown-height")
+	h.r.Count("client", p+":unknown-height:"+c09GetterCoq[h.getter])
 	if !errors.Is(err, ErrNotFound) {
 		return fmt.Errorf("client.Get for a height the server does not hold returned %v, not ErrNotFound", err)
 	}
@@ -789,9 +825,9 @@ func (h *c09H) tryF(p, fam string, req []byte, limit int64, closeWrite bool, fau
 	}
 	w, id, sq := h.expect(p, req)
 	replay := map[string]any{"proto": p, "fam": fam, "req_hex": fmt.Sprintf("%x", req), "limit": limit, "close_write": closeWrite,
-		"fault": c09FaultCoq[fault], "observed": out, "heights": h.heightsJSON()}
+		"fault": c09FaultCoq[fault], "getter": c09GetterCoq[h.getter], "observed": out, "heights": h.heightsJSON()}
 	obs := map[string]string{"reset": "SReset", "resetlimit": "SResetLimit", "notfound": "SNF", "internal": "SINT", "ok": "SOK"}[out.Class]
-	term := zv.App("SHandle", p, zv.Bytes(req), "hs", zv.Z(limit), zv.Bool(w.BuildOK), c09FaultCoq[fault], obs,
+	term := zv.App("SHandle", p, zv.Bytes(req), "hs", zv.Z(limit), zv.Bool(w.BuildOK), c09FaultCoq[fault], c09GetterCoq[h.getter], obs,
 		zv.Nat(out.Opened), zv.Nat(out.Closed), zv.Z(out.Reserved), zv.Z(out.Released))
 	key := ""
 	if fam != "valid" {
@@ -800,10 +836,11 @@ func (h *c09H) tryF(p, fam string, req []byte, limit int64, closeWrite bool, fau
 		key = "served"
 	}
 	if closeWrite { // a client that resets is judged by the oracle only: how many bytes the handler saw before is timing
-		h.g.Case(term, map[string]any{"proto": p, "fam": fam, "req_hex": fmt.Sprintf("%x", req), "limit": limit, "fault": c09FaultCoq[fault], "class": out.Class}, key)
+		h.g.Case(term, map[string]any{"proto": p, "fam": fam, "req_hex": fmt.Sprintf("%x", req), "limit": limit, "fault": c09FaultCoq[fault], "getter": c09GetterCoq[h.getter], "class": out.Class}, key)
 	}
 	h.r.Count("request", p+":"+fam)
 	h.r.Count("outcome", p+":"+out.Class)
+	h.r.Count("getter", c09GetterCoq[h.getter]+":"+out.Class)
 	// ---- L3
 	for _, pn := range out.Panics {
 		if fault != c09FBuildPanic || pn != c09InjectedPanic {
@@ -912,11 +949,17 @@ func TestVerifC09(t *testing.T) {
 		CloseWrite bool   `json:"close_write"`
 		Fault      string `json:"fault"`
 		Client     string `json:"client"` // "" (raw request), "get", "notfound"
+		Getter     string `json:"getter"`
 	}
 	if r.ReplayInput(&rp) && rp.Proto != "" {
 		req, err := hex.DecodeString(rp.ReqHex)
 		if err != nil {
 			t.Fatalf("replay: %v", err)
+		}
+		for i, n := range c09GetterCoq {
+			if n == rp.Getter {
+				h.getter = i
+			}
 		}
 		switch rp.Client {
 		case "get":
@@ -1097,6 +1140,34 @@ func TestVerifC09(t *testing.T) {
 			}
 		}
 	}
+	// ---- the same server with another AccessorGetter in front of the store: what it holds it serves, what it does not hold is
+	// "not found" — the getter's added error context must not turn that into INTERNAL
+	for _, gt := range []int{c09GCached, c09GWrapping} {
+		h.getter = gt
+		for _, sq := range h.squares {
+			for _, p := range c09Protos {
+				ns := sq.runs[0].ns.Bytes()
+				good := c09Req(p, sq.height, 0, 1, ns)
+				h.try(p, "getter:valid", good, lim, true)
+				h.clientCheck(p, good)
+				for _, uh := range []uint64{sq.height + 1000, 1, 1 << 63, rng.U64() | 1<<20} {
+					h.try(p, "getter:unknown-height", c09Req(p, uh, 0, 1, ns), lim, true)
+				}
+				h.clientNotFoundCheck(p, c09Req(p, sq.height+1000, 0, 1, ns))
+				h.clientNotFoundCheck(p, c09Req(p, 1, 0, 1, ns))
+				h.try(p, "getter:zero-height", c09Req(p, 0, 0, 1, ns), lim, true)
+				h.try(p, "getter:tight-budget", good, 0, true)
+				h.tryF(p, "getter:fault", good, lim, true, c09FBuildPanic)
+				h.tryF(p, "getter:fault", good, lim, true, c09FSize)
+			}
+			// beyond the square through this getter as well (the validating wrapper sits inside what the getter returns)
+			w := uint64(2 * sq.k)
+			h.try("PSample", "getter:coord-beyond", c09Req("PSample", sq.height, w-1, w, nil), lim, true)
+			h.try("PRow", "getter:row-beyond", c09Req("PRow", sq.height, w, 0, nil), lim, true)
+			h.try("PRange", "getter:range-beyond", c09Req("PRange", sq.height, 0, uint64(sq.k*sq.k)+1, nil), lim, true)
+		}
+	}
+	h.getter = c09GPlain
 	// ---- random and mutated byte strings
 	for i, n := 0, r.N(1200, 20000); i < n; i++ {
 		p := zv.Pick(rng, c09Protos)
